@@ -26,6 +26,7 @@ package main
 
 import (
 	"encoding/json"
+	"syscall"
 	"time"
 
 	"verif/internal/ev"
@@ -34,9 +35,18 @@ import (
 	"verif/internal/sched"
 )
 
+// cpuSeconds is the CPU time (user + system) this process has used so far.
+func cpuSeconds() float64 {
+	var ru syscall.Rusage
+	if syscall.Getrusage(syscall.RUSAGE_SELF, &ru) != nil {
+		return 0
+	}
+	return float64(ru.Utime.Sec+ru.Stime.Sec) + float64(ru.Utime.Usec+ru.Stime.Usec)/1e6
+}
+
 func main() {
 	run := ev.Start("C14", "exploration")
-	run.SetRule("distinct = distinct dimension vectors that reached the deciding call: (surface/router, verifier settings class, iss, sub kind, aud form, reference time zones, signing key, kid kind, alg, tamper, extra claims [, grant owner, outer client_id, assertion type | requesting client, outer form, object client_id/response_type kind])")
+	run.SetRule("distinct = distinct dimension vectors that reached the deciding call: (surface/router, verifier settings class, iss, sub kind, aud form, reference time zones, signing key, kid kind, alg, tamper, extra claims [, grant owner, outer client_id, assertion type | requesting client, outer form, object client_id/response_type kind | entry point, verifier kept or not, outer client_id, Basic header kind | provider variant, verifier kept or not, shape, grant owner relation | parked-at yield point, pair kind, outcome of both calls])")
 	run.Assume(
 		"time (bracketed: reference evaluated before and after the call, disagreement is inconclusive): exp must-reject when exp <= now-2s whatever the offset, must-accept when exp >= now+offset+2s (an offset may only make expiry stricter); iat must-accept when iat <= now-2s, must-reject when iat >= now+offset+2s; age must-accept when <= maxAge-2s, must-reject when >= maxAge+2s; grey in between",
 		"a kid header that does not lead to the signing key although that key is held for the named client is grey (the statement does not mention kid)",
@@ -80,9 +90,9 @@ func main() {
 	nInterop := run.N(360, 3600)
 	nDyn := run.N(1800, 36000)
 	nRP := run.N(144, 1440)
-	nShared := run.N(1200, 24000)
+	nShared := run.N(800, 16000)
 	nClientAuth := run.N(6000, 120000)
-	nCfg := run.N(2800, 56000)
+	nCfg := run.N(2100, 42000)
 
 	streams := map[string]func(*ev.Run, int){"direct": directCase, "endpoint": endpointCase, "reqobj": reqObjCase, "interop": interopCase, "dynhost": dynCase, "rpinterop": rpInteropCase,
 		"shared": sharedCase, "clientauth": clientAuthCase, "cfgendpoint": cfgCase}
@@ -107,11 +117,12 @@ func main() {
 	run.Mandatory(sharedMandatory()...)
 	run.Mandatory(clientAuthMandatory()...)
 	run.Mandatory(cfgMandatory()...)
-	phases := map[string]float64{}
+	phases, phaseCPU := map[string]float64{}, map[string]float64{}
 	phase := func(name string, n int, fn func(*ev.Run, int)) {
-		t := time.Now()
+		t, c := time.Now(), cpuSeconds()
 		ev.Parallel(n, 0, func(_ int, i int) { fn(run, i) })
 		phases[name] = time.Since(t).Seconds()
+		phaseCPU[name] = cpuSeconds() - c // wall time depends on what else the machine is doing; this does not
 	}
 	// interop first: its literal samples are the rarest
 	phase("interop", nInterop, interopCase)
@@ -128,6 +139,7 @@ func main() {
 		run.Count("observation_not_judged:object_without_iss_and_client_id_signed_with_a_key_stored_under_the_empty_client_id", "panic: "+pi.Value)
 	}
 	run.Extra("phase_wall_s", phases)
+	run.Extra("phase_cpu_s", phaseCPU)
 	run.Extra("cases", map[string]int{"direct": nDirect, "endpoint": nEndpoint, "reqobj": nReqObj, "interop": nInterop, "dynhost": nDyn, "rpinterop": nRP, "shared": nShared, "clientauth": nClientAuth, "cfgendpoint": nCfg})
 	run.Finish()
 }
